@@ -247,6 +247,62 @@ Definition dict_items (v : pyval) : list (str * pyval) := match v with PDict kv 
 Definition in_domain_struct (v : pyval) : bool :=
   match v with PList (_ :: _) | PTuple (_ :: _) => false | _ => true end.
 
+(* ------------------------------------------------------------------ iteration combinators (named, so that
+   lemmas about them are stated once); f is always a recursive call on a sub-datatype *)
+Definition map_res (f : pyval -> res pyval) : list pyval -> res (list pyval) :=
+  fix go (l : list pyval) : res (list pyval) :=
+    match l with
+    | [] => Ok []
+    | x :: r => f x >>= fun y => go r >>= fun ys => Ok (y :: ys)
+    end.
+
+(* zip(value, previous) *)
+Definition map2_res (f : pyval -> pyval -> res pyval) : list pyval -> list pyval -> res (list pyval) :=
+  fix go (l ps : list pyval) : res (list pyval) :=
+    match l, ps with
+    | x :: r, p :: ps' => f x p >>= fun y => go r ps' >>= fun ys => Ok (y :: ys)
+    | _, _ => Ok []
+    end.
+
+(* zip(members, value) *)
+Definition mapd_res (f : dtype -> pyval -> res pyval) : list dtype -> list pyval -> res (list pyval) :=
+  fix go (ds : list dtype) (l : list pyval) : res (list pyval) :=
+    match ds, l with
+    | d1 :: ds', x :: r => f d1 x >>= fun y => go ds' r >>= fun ys => Ok (y :: ys)
+    | _, _ => Ok []
+    end.
+
+(* zip(members, value, previous) *)
+Definition mapd2_res (f : dtype -> pyval -> pyval -> res pyval)
+  : list dtype -> list pyval -> list pyval -> res (list pyval) :=
+  fix go (ds : list dtype) (l ps : list pyval) : res (list pyval) :=
+    match ds, l, ps with
+    | d1 :: ds', x :: r, p :: ps' => f d1 x p >>= fun y => go ds' r ps' >>= fun ys => Ok (y :: ys)
+    | _, _, _ => Ok []
+    end.
+
+(* self.members[key](val) *)
+Definition member_res (f : dtype -> pyval -> res pyval) (k : str) (x : pyval)
+  : list (str * dtype) -> res pyval :=
+  fix find (ms : list (str * dtype)) : res pyval :=
+    match ms with
+    | [] => Err EKey
+    | (n, d1) :: ms' => if str_eqb k n then f d1 x else find ms'
+    end.
+
+(* for key, val in value.items(): result[key] = members[key](val), None values skipped when skip_none *)
+Definition struct_fold (f : dtype -> pyval -> res pyval) (skip_none : bool) (members : list (str * dtype))
+  : list (str * pyval) -> list (str * pyval) -> res (list (str * pyval)) :=
+  fix go (kv acc : list (str * pyval)) : res (list (str * pyval)) :=
+    match kv with
+    | [] => Ok acc
+    | (k, x) :: r =>
+        match x, skip_none with
+        | PNone, true => go r acc
+        | _, _ => member_res f k x members >>= fun y => go r (dict_set k y acc)
+        end
+    end.
+
 (* ------------------------------------------------------------------ the three entry points *)
 Section WithEnv.
 Variable E : pyenv.
@@ -264,44 +320,18 @@ Fixpoint dt_call (d : dtype) (v : pyval) {struct d} : res pyval :=
       array_check minlen maxlen v >>= fun _ =>
       match py_iter v with
       | None => Err EWrongType
-      | Some items =>
-          wrap_elem ((fix go (l : list pyval) : res (list pyval) :=
-                        match l with
-                        | [] => Ok []
-                        | x :: r => dt_call elem x >>= fun y => go r >>= fun ys => Ok (y :: ys)
-                        end) items) >>= fun ys => Ok (PTuple ys)
+      | Some items => wrap_elem (map_res (dt_call elem) items) >>= fun ys => Ok (PTuple ys)
       end
   | TTuple elems =>
       tuple_check (length elems) v >>= fun _ =>
       match py_iter v with
       | None => Err EWrongType
-      | Some items =>
-          wrap_elem ((fix go (ds : list dtype) (l : list pyval) : res (list pyval) :=
-                        match ds, l with
-                        | d1 :: ds', x :: r => dt_call d1 x >>= fun y => go ds' r >>= fun ys => Ok (y :: ys)
-                        | _, _ => Ok []
-                        end) elems items) >>= fun ys => Ok (PTuple ys)
+      | Some items => wrap_elem (mapd_res dt_call elems items) >>= fun ys => Ok (PTuple ys)
       end
   | TStruct members optional client =>
       struct_check (map fst members) optional client false v >>= fun _ =>
       if negb (is_dict v) then Err EOther             (* value.items() fails; the handler then fails on the unbound key *)
-      else
-        wrap_elem ((fix go (kv : list (str * pyval)) (acc : list (str * pyval)) : res (list (str * pyval)) :=
-                      match kv with
-                      | [] => Ok acc
-                      | (k, x) :: r =>
-                          match x with
-                          | PNone => go r acc
-                          | _ =>
-                              (fix find (ms : list (str * dtype)) : res (list (str * pyval)) :=
-                                 match ms with
-                                 | [] => Err EKey
-                                 | (n, d1) :: ms' =>
-                                     if str_eqb k n then dt_call d1 x >>= fun y => go r (dict_set k y acc)
-                                     else find ms'
-                                 end) members
-                          end
-                      end) (dict_items v) []) >>= fun kv => Ok (PDict kv)
+      else wrap_elem (struct_fold dt_call true members (dict_items v) []) >>= fun kv => Ok (PDict kv)
   end.
 
 Fixpoint dt_validate (d : dtype) (v prev : pyval) {struct d} : res pyval :=
@@ -321,19 +351,9 @@ Fixpoint dt_validate (d : dtype) (v prev : pyval) {struct d} : res pyval :=
           if py_truthy prev then
             match py_iter prev with
             | None => Err EWrongType                  (* zip(value, previous) raises inside the try *)
-            | Some ps =>
-                wrap_elem ((fix go (l ps : list pyval) : res (list pyval) :=
-                              match l, ps with
-                              | x :: r, p :: ps' => dt_validate elem x p >>= fun y => go r ps' >>= fun ys => Ok (y :: ys)
-                              | _, _ => Ok []
-                              end) items ps) >>= fun ys => Ok (PTuple ys)
+            | Some ps => wrap_elem (map2_res (dt_validate elem) items ps) >>= fun ys => Ok (PTuple ys)
             end
-          else
-            wrap_elem ((fix go (l : list pyval) : res (list pyval) :=
-                          match l with
-                          | [] => Ok []
-                          | x :: r => dt_validate elem x PNone >>= fun y => go r >>= fun ys => Ok (y :: ys)
-                          end) items) >>= fun ys => Ok (PTuple ys)
+          else wrap_elem (map_res (fun x => dt_validate elem x PNone) items) >>= fun ys => Ok (PTuple ys)
       end
   | TTuple elems =>
       tuple_check (length elems) v >>= fun _ =>
@@ -341,22 +361,11 @@ Fixpoint dt_validate (d : dtype) (v prev : pyval) {struct d} : res pyval :=
       | None => Err EWrongType
       | Some items =>
           match prev with
-          | PNone =>
-              wrap_elem ((fix go (ds : list dtype) (l : list pyval) : res (list pyval) :=
-                            match ds, l with
-                            | d1 :: ds', x :: r => dt_validate d1 x PNone >>= fun y => go ds' r >>= fun ys => Ok (y :: ys)
-                            | _, _ => Ok []
-                            end) elems items) >>= fun ys => Ok (PTuple ys)
+          | PNone => wrap_elem (mapd_res (fun d1 x => dt_validate d1 x PNone) elems items) >>= fun ys => Ok (PTuple ys)
           | _ =>
               match py_iter prev with
               | None => Err EWrongType
-              | Some ps =>
-                  wrap_elem ((fix go (ds : list dtype) (l ps : list pyval) : res (list pyval) :=
-                                match ds, l, ps with
-                                | d1 :: ds', x :: r, p :: ps' =>
-                                    dt_validate d1 x p >>= fun y => go ds' r ps' >>= fun ys => Ok (y :: ys)
-                                | _, _, _ => Ok []
-                                end) elems items ps) >>= fun ys => Ok (PTuple ys)
+              | Some ps => wrap_elem (mapd2_res dt_validate elems items ps) >>= fun ys => Ok (PTuple ys)
               end
           end
       end
@@ -366,23 +375,8 @@ Fixpoint dt_validate (d : dtype) (v prev : pyval) {struct d} : res pyval :=
       | None => Err EOther                            (* dict(previous) of a non-dict: outside the specified use *)
       | Some start =>
           if negb (is_dict v) then Err EOther
-          else
-            wrap_elem ((fix go (kv : list (str * pyval)) (acc : list (str * pyval)) : res (list (str * pyval)) :=
-                          match kv with
-                          | [] => Ok acc
-                          | (k, x) :: r =>
-                              match x with
-                              | PNone => go r acc
-                              | _ =>
-                                  (fix find (ms : list (str * dtype)) : res (list (str * pyval)) :=
-                                     match ms with
-                                     | [] => Err EKey
-                                     | (n, d1) :: ms' =>
-                                         if str_eqb k n then dt_validate d1 x PNone >>= fun y => go r (dict_set k y acc)
-                                         else find ms'
-                                     end) members
-                              end
-                          end) (dict_items v) start) >>= fun kv => Ok (PDict kv)
+          else wrap_elem (struct_fold (fun d1 x => dt_validate d1 x PNone) true members (dict_items v) start)
+               >>= fun kv => Ok (PDict kv)
       end
   end.
 
@@ -393,39 +387,17 @@ Fixpoint dt_import (d : dtype) (v : pyval) {struct d} : res pyval :=
   | TArray elem _ _ =>
       match py_iter v with
       | None => Err EType                             (* not caught *)
-      | Some items =>
-          (fix go (l : list pyval) : res (list pyval) :=
-             match l with
-             | [] => Ok []
-             | x :: r => dt_import elem x >>= fun y => go r >>= fun ys => Ok (y :: ys)
-             end) items >>= fun ys => Ok (PTuple ys)
+      | Some items => map_res (dt_import elem) items >>= fun ys => Ok (PTuple ys)
       end
   | TTuple elems =>
       match py_iter v with
       | None => Err EType
-      | Some items =>
-          (fix go (ds : list dtype) (l : list pyval) : res (list pyval) :=
-             match ds, l with
-             | d1 :: ds', x :: r => dt_import d1 x >>= fun y => go ds' r >>= fun ys => Ok (y :: ys)
-             | _, _ => Ok []
-             end) elems items >>= fun ys => Ok (PTuple ys)
+      | Some items => mapd_res dt_import elems items >>= fun ys => Ok (PTuple ys)
       end
   | TStruct members optional client =>
       struct_check (map fst members) optional client true v >>= fun _ =>
       if negb (is_dict v) then Err EAttr              (* value.items() of a non-mapping: not caught *)
-      else
-        (fix go (kv : list (str * pyval)) (acc : list (str * pyval)) : res (list (str * pyval)) :=
-           match kv with
-           | [] => Ok acc
-           | (k, x) :: r =>
-               (fix find (ms : list (str * dtype)) : res (list (str * pyval)) :=
-                  match ms with
-                  | [] => Err EKey
-                  | (n, d1) :: ms' =>
-                      if str_eqb k n then dt_import d1 x >>= fun y => go r (dict_set k y acc)
-                      else find ms'
-                  end) members
-           end) (dict_items v) [] >>= fun kv => Ok (PDict kv)
+      else struct_fold dt_import false members (dict_items v) [] >>= fun kv => Ok (PDict kv)
   | _ => dt_call d v                                  (* DataType.import_value: return self(value) *)
   end.
 
